@@ -168,6 +168,19 @@ Definition canonical (m : msg) : msg :=
   {| m_type := m_type m; m_code := m_code m; m_mid := m_mid m; m_token := m_token m;
      m_opt := option_list (m_opt m); m_payload := m_payload m |}.
 
+(* ------------------------------------------------------------------ transports: the receive path around Message.decode *)
+(* udp6.py:621-630 datagram_msg_received, generic_udp.py:31-38 _received_datagram (and tinydtls.py:284-290, slipmux.py:414-421):
+     try: message = Message.decode(data, remote)
+     except <handled classes>: log.warning(...); return
+     ...dispatch_message(message)
+   [handles] is the except clause as a predicate, generated per site from the source (Gen/decode_handlers.v) *)
+Inductive rx_outcome := Dispatched (m : msg) | Dropped | Escaped (e : exn).
+Definition received_datagram (handles : exn -> bool) (data : bytes) : rx_outcome :=
+  match Message_decode data with
+  | Ok message => Dispatched message
+  | Raise e => if handles e then Dropped else Escaped e
+  end.
+
 (* ------------------------------------------------------------------ helpers for the correspondence run only
    (canonical, size-bounded views of results; long byte strings are shown as (length, hash)) *)
 Definition digest (b : bytes) : Z * Z := (blen b, fold_left (fun a x => Z.land (a * 257 + x + 1) 1073741823) b 0).
@@ -201,3 +214,9 @@ Definition encode_trace (m : msg) :=
 Definition value_trace (number : Z) (raw : bytes) :=
   let d := create_option_decode number raw in
   (mmap (fun v => optview (number, v)) d, mmap bv (bind d option_encode)).
+(* transport stream: what the receive path does with a datagram *)
+Inductive rx_view := RxDispatched (v : Z * Z * Z * bview * list (Z * Z * list Z * bview) * bview) | RxDropped | RxEscaped (e : exn).
+Definition received_trace (handles : exn -> bool) (data : bytes) : rx_view :=
+  match received_datagram handles data with
+  | Dispatched m => RxDispatched (msgview m) | Dropped => RxDropped | Escaped e => RxEscaped e
+  end.
